@@ -172,6 +172,9 @@ pub fn make_pool(family: &str, dim: usize, seed: u64, n: usize) -> Vec<Vec<f64>>
                     (0..dim).map(|_| rng.range_i64(-40, 200) as f64 / 8.0).collect()
                 }
             }
+            // general position like "dyadic", but inside a box of side 2^-8: determinants are far
+            // below 1 in absolute terms while every instance stays well conditioned
+            "small" => (0..dim).map(|_| rng.range_i64(0, 1023) as f64 / 1024.0 / 256.0).collect(),
             "wide" => (0..dim).map(|_| (rng.range_i64(0, 1023) as f64) * (1u64 << 30) as f64).collect(),
             "tiny" => (0..dim).map(|_| (rng.range_i64(0, 1023) as f64) / (1u64 << 30) as f64).collect(),
             "cluster" => {
